@@ -115,6 +115,24 @@ def drive(recipe):
             p = {"list": [int(s.integer_code) for s in lst], "reduced": [],
                  "lookup": {"exc": type(e).__name__, "number": 0, "choice": "", "ops": []}}
         t["perms"].append(p)
+    # a caller may edit the operations of its own SpaceGroup object in place (e.g. to move the origin); a group constructed
+    # afterwards must not see those edits: its matrices (read directly, not through memoised codes) are the setting's
+    import numpy as np
+    t["fresh"] = {"exc": "", "off": False, "mats": []}
+    try:
+        for s in sg.symmetry_operations:
+            s.translation[:] = (np.asarray(s.translation) + 0.25) % 1
+            s.rotation[:] = -np.asarray(s.rotation)
+        sg2 = SpaceGroup(row["number"], choice=row["choice"]) if row["choice"] else SpaceGroup(row["number"])
+        off = False
+        for s in sg2.symmetry_operations:
+            rot = np.asarray(s.rotation, dtype=float).ravel()
+            tr = np.asarray(s.translation, dtype=float).ravel() * 12
+            off |= bool(np.any(np.abs(rot - np.round(rot)) > 1e-9) or np.any(np.abs(tr - np.round(tr)) > 1e-9))
+            t["fresh"]["mats"].append([[int(round(x)) for x in rot], [int(round(x)) % 12 for x in tr]])
+        t["fresh"]["off"] = off
+    except Exception as e:
+        t["fresh"]["exc"] = type(e).__name__
     t["meta"]["nontrivial"] = len(t["ops"]) > 1
     return t
 
